@@ -547,3 +547,23 @@ def check_C18():
     finish("C18", "exploration", cov, rep["violations"] or [], inconclusive=rep.get("inconclusive") or None,
            assumptions=["chunking and HAMT sharding happen inside go-unixfsnode; the specification only makes sure the size classes are generated",
                         "directories large enough to be sharded are not generated in this round"])
+
+
+def check_C19():
+    vh = build_harness()
+    car = vlib.build_car()
+    cfg = "Cli_2" if tier() == "quick" else "Cli_3"
+    model = run_tlc("MCCli", cfg + ".cfg", timeout=2400)
+    tlc_must_pass(model, "Cli.tla FilterSound / ConcatLen")
+    em = run_tlc("MCCli", cfg + "_emit.cfg", timeout=2400)
+    tlc_must_pass(em, "Cli.tla emitter")
+    pm = 40 if tier() == "quick" else 120
+    rc, rep = harness_run(vh, ["cli-replay", em["out"], "@REPORT", car, "seed=%d" % seed(), "permille=%d" % pm], timeout=3400)
+    cov = {"evaluations": rep["evaluations"], "distinct_nontrivial": rep["distinct_nontrivial"], "states": model["distinct"], "transitions": model["states"],
+           "rule": "every archive of <= %d sections over 7 blocks (same multihash/other codec, CIDv0, identity, varint-boundary lengths, duplicates) x 3 root lists x {CARv1, CARv2+mh index, CARv2 padded + sorted "
+                   "index, CARv2 padded index-less}: car list, car index x {both codecs, none} x {v1,v2}, car index create x 2 codecs, car detach-index, car get-block for 7 CIDs, car concat (v1 and the "
+                   "known-broken v2), car get-dag x {v1,v2}, and a seeded %d permille sample of car filter x {<= 2 selected CIDs, inverse, v1/v2} and filter --append; outputs are compared byte-for-byte with "
+                   "the reference encoding of the archive Cli.tla gives (index: record multiset between the regenerated index without / with identity CIDs), and every emitted archive is given to "
+                   "car inspect --full and, when its roots are among its blocks, car verify" % (2 if tier() == "quick" else 3, pm),
+           "samples": rep["samples"] or [{}], "counters": rep["counters"], "model_cases": em["distinct"]}
+    finish("C19", "exploration", cov, rep["violations"] or [], inconclusive=rep.get("inconclusive") or None)
